@@ -7,6 +7,8 @@ the model's skeletons (Kopf/Tie/C15.lean); (D) real handlers (dataclasses and ko
 with an explicit registry) x real causes over the criteria alphabet are pushed through the real
 registries.match/prematch/get_handlers/_deduplicated and the real process_resource_event, and
 compared with the Lean model; the oracle is a separate Python reading of docs/filters.rst.
+Sub-registries (`@kopf.subhandler`, `kopf.register`, `kopf.execute(fns=...)`) are built by kopf itself
+inside a running parent handler and judged the same way (finding C15-F8, /repo 17e5c42).
 """
 from __future__ import annotations
 
@@ -28,13 +30,24 @@ LEVEL_TEXT = (
     "STRENGTH partial. Lean theorems for all handlers/causes (unbounded label maps, patterns, registries; induction over "
     "lists). FULL (unguarded): matchesMetadata_iff/matchesLabels_iff; dedup_nodup/first_kept/sublist/ids_same, "
     "dedup_function_once ('one FUNCTION under one id once': the key is the function's identity since /repo c47dbbf; "
-    "regression theorem bound_method_once_regression) and selected_iff/selected_sound; invoked_sound, unmatched_never_invoked, "
+    "regression theorem bound_method_once_regression) and selected_iff/selected_sound; the cause-kind gate of the changing "
+    "registry spelled out, incl. /repo 17e5c42: gate_iff, selected_on_deletion_iff (on a marked object resuming handlers "
+    "without deleted=True and FIELD handlers -- reason-less, non-resuming, field_needs_change -- are skipped, every other "
+    "handler whose criteria hold is selected), subhandler_gate / subhandler_selected_iff / subhandlers_selected_iff (a "
+    "sub-handler -- reason none, not resuming -- with a falsy field_needs_change is selected iff `match`, on every cause) and "
+    "subhandler_deletion_regression (finding C15-F8: the gate of /repo 345a874 rejected the sub-handlers of a deletion "
+    "handler); subhandler_matching_invoked_fresh; invoked_sound, unmatched_never_invoked, "
     "matching_due_invoked/matching_invoked_fresh (changing registry, both directions of 'exactly' under the all-at-once "
     "lifecycle, composed with C02); stealth_exact (what a cycle does to an object nothing matches, over the model's Effect "
     "enumeration). UNDER A NAMED GUARD (= open finding, each with a *_witness replayed from the corpus): "
-    "match = documented reading of docs/filters.rst under OldOnlyFree (C15-F1) and TokenFree (per handler AND cause: only "
-    "the abuse of the private absent marker as a criterion; the callback gap C15-F2 is repaired by /repo 07968cf: "
-    "callback_none_regression) -- match_eq_doc_partial, _update_partial, _nonchanging_partial, invoked_doc_partial; "
+    "match = documented reading of docs/filters.rst under OldOnlyFree (C15-F1, since /repo bd6cd41 only its residual: a "
+    "non-update handler on a changing cause WITH an old state whose old state alone satisfies value=) and TokenFree (per "
+    "handler AND cause: only the abuse of the private absent marker as a criterion; the callback gap C15-F2 is repaired by "
+    "/repo 07968cf: callback_none_regression) -- match_eq_doc_partial, _update_partial, _nonchanging_partial, "
+    "_creation_partial (causes without an old state: OldOnlyFree is void), invoked_doc_partial; the clause 'field/value "
+    "criteria (current value; for updates old or new value)' on CREATIONS is FULL: creation_old_state_ignored (no guard: "
+    "the non-existent old state is not consulted by on.create/on.resume/on.delete handlers), creation_value_current_only "
+    "(value= holds iff it holds on the current value, for every documented criterion), create_absent_regression; "
     "Selector.check = docs/resources.rst except the events.k8s.io exclusion (observation, docs-only) -- "
     "selector_check_iff_partial, resource_criterion_doc_partial; the stealth clause under 'own finalizer absent, nothing "
     "carried in (C15-F5, by design), no lingering daemon (C15-F6)' -- stealth_total_partial, stealth_partial. "
@@ -52,23 +65,31 @@ TIE = ("T (AST -> Lean for match/prematch/_matches_*/all four registry loops inc
        "methods, and on real process_resource_event cycles: single events with preset residues (carried patch, resumed "
        "handlers, handlers that ask for a retry; daemon spawning/stopping stubbed) AND sequences of consecutive events on "
        "one ResourceMemories with kopf's real spawn/match/stop of daemons (invoked handlers observed by `param`, touch "
-       "patches observed); _deduplicated's loop and Selector.__post_init__ are tied by D only")
+       "patches observed); SUB-REGISTRIES: parents of every kind are run by kopf's execution.execute_handlers_once in "
+       "subhandling_context, declare sub-handlers through @kopf.subhandler / kopf.register / kopf.execute(fns=[..]|{..}), "
+       "and the real sub-registry (handler fields, get_handlers result, invoked functions) is compared with the "
+       "declarations, the oracle and the model; the same inside whole process_resource_event cycles; _deduplicated's loop "
+       "and Selector.__post_init__ are tied by D only")
 STRENGTH = "partial"   # see LEVEL_TEXT: several clauses hold only under named guards (= open findings) or rest on the tie
 THEOREMS = [("Kopf.Props.C15", "Kopf.C15." + n) for n in (
-    "match_eq_doc_partial", "match_eq_doc_update_partial", "match_eq_doc_nonchanging_partial",
+    "match_eq_doc_partial", "match_eq_doc_update_partial", "match_eq_doc_nonchanging_partial", "match_eq_doc_creation_partial",
+    "creation_old_state_ignored", "creation_value_current_only", "create_absent_regression",
     "doc_gap_old_only_witness", "callback_none_regression", "doc_gap_token_literal_witness",
     "matchesMetadata_iff", "matchesLabels_iff", "dedup_nodup", "dedup_first_kept", "dedup_sublist", "dedup_ids_same",
     "dedup_function_once", "bound_method_once_regression",
     "selected_iff", "selected_sound",
+    "gate_iff", "selected_on_deletion_iff", "subhandler_gate", "subhandler_selected_iff", "subhandlers_selected_iff",
+    "subhandler_deletion_regression",
     "selector_check_iff_partial", "resource_criterion_doc_partial", "selector_gap_events_k8s_witness",
     "stealth_exact", "stealth_total_partial", "stealth_partial", "stealth_carried_witness", "stealth_blocked_witness",
     "stealth_touch_witness",
 )] + [("Kopf.Props.C15_Invoked", "Kopf.C15." + n) for n in (
     "invoked_sound", "invoked_doc_partial", "unmatched_never_invoked", "matching_due_invoked", "matching_invoked_fresh",
+    "subhandler_matching_invoked_fresh",
 )]
 TIE_THEOREMS = [("Kopf.Tie.C15", "Kopf.C15.Tie." + n) for n in (
     "match_eq", "prematch_eq", "resource_eq", "subresource_eq", "subresource_nonwebhook", "when_eq", "labels_eq",
-    "annotations_eq", "metadata_step_eq", "field_values_eq", "values_eq", "change_eq", "old_side_eq", "new_side_eq",
+    "annotations_eq", "metadata_step_eq", "field_values_eq", "current_only_eq", "values_eq", "change_eq", "old_side_eq", "new_side_eq",
     "sides_src_eq", "field_changes_eq", "iter_plain_eq", "requires_finalizer_eq", "dedup_key_eq", "blind_eq",
     "finalizer_decision_eq", "release_eq", "early_exit_eq", "iter_changing_eq", "resumed_filter_eq", "apply_touch_eq",
     "selector_parts_eq", "selector_version_eq", "selector_any_eq", "selector_fn_eq", "selector_check_eq",
@@ -82,9 +103,21 @@ RULE = ("handler declaration = labels x annotations criterion in {none, 'x', 'y'
         "values (and '' label/annotation values and criteria, labels={}), in both tiers; cross-class pairs, "
         "random larger label maps, registries with duplicate registrations through kopf.on.*, every selector notation of "
         "docs/resources.rst x a pool of 10 resources (preferred/non-preferred versions, core and events.k8s.io events, "
-        "missing kind/singular), whole process_resource_event cycles (with and without a carried remaining_patch, preset "
+        "missing kind/singular), the complete grid handler kind (on.create/update/delete/resume/field through kopf.on.*) x "
+        "value= in {none, ABSENT, PRESENT, 'x', callbacks} x every cause shape detect_changing_cause builds over the field "
+        "alphabet (creation = no old state; update old != new, also first-seen; deletion with no / equal / differing old "
+        "state; resuming) through get_handlers, whole process_resource_event cycles (with and without a carried remaining_patch, preset "
         "resumed_handlers, temporarily failing handlers, fields under spec/metadata/status) and 3-6-event sequences with real "
-        "daemons (obeying / ignoring `stopped`) where the label comes and goes and the finalizer follows kopf's own edits; a "
+        "daemons (obeying / ignoring `stopped`) where the label comes and goes and the finalizer follows kopf's own edits; "
+        "sub-registries: the complete grid parent kind (on.create/update/delete/resume[deleted=True]/field) x way of declaring "
+        "(@kopf.subhandler, kopf.register, kopf.execute(fns=list), kopf.execute(fns=mapping)) x 22 cause shapes (every reason, "
+        "DELETE/FREE/GONE on marked bodies, initial or not, labelled or not) x sub-handlers {no filter, labels=, when=false, "
+        "field/value}, plus random parents/sub-handlers (0-4, random label/annotation/when/field filters, the same function "
+        "twice under one or two ids, implicit or explicit kopf.execute()), judged when the parent itself runs for the cause; "
+        "closed-loop scenarios (an on.delete handler declaring two sub-handlers on a marked object that carries the finalizer: "
+        "both invoked, then the finalizer released in the same cycle; one of them asking for a retry: not released; "
+        "on.resume(deleted=True) on a marked object; on.create with labels=/when= sub-handlers; on.update/on.field parents) "
+        "and random cycles built so that a parent with random sub-handlers runs; a "
         "case is distinct by (criterion kinds, documented per-part verdicts, real match/prematch) and non-trivial when the "
         "handler has at least one criterion")
 TRUSTED = ["pyextract atom vocabularies for registries.match/prematch/_matches_*/registry loops, references.Selector.check and the "
@@ -104,7 +137,14 @@ ASSUMPTIONS = ["values are JSON (strings, integers, booleans, null, lists, objec
                "(plain or under a named deviation) differs between Python == and type-strict JSON equality",
                "a criterion is 'given' iff it `is not None` (model: VCrit.unset only for None; oracle: `is None` tests): "
                "'', 0, False, [], {} are ordinary literals",
-               "the reason/initial/deleted gate of ChangingRegistry.iter_handlers is C05's model (Kopf.C05.gate), reused here",
+               "the reason/initial/deleted gate of ChangingRegistry.iter_handlers reads C05's records of the handler kind and the "
+               "cause kind (Kopf.C05.Handler / Kopf.C05.Cause) and, since /repo 17e5c42, the handler's field_needs_change: it is "
+               "C15's own definition (Kopf.C15.gate), tied to the AST by iter_changing_eq / selChanging_eq_core",
+               "a sub-handler's cause is its parent's ADJUSTED cause (handlers.adjust_cause: old/new narrowed to the parent's "
+               "field): the sub-registry cases read old/new off the cause kopf passed to get_handlers; field filters of "
+               "sub-handlers under a parent that has a field itself are tied, not judged (the docs are silent); a sub-registry "
+               "is judged only for causes the parent itself runs for by the documented reading, and only for causes "
+               "detect_changing_cause can build (a deletion mark only with DELETE/FREE/GONE)",
                "'selected' vs 'invoked': both directions are proved for the changing registry under all_at_once (a due matching "
                "handler is invoked; an invoked handler matches); one-by-one/asap planning, sleeping and finished handlers are "
                "C02's/C03's; statements are id-level (two functions under one id are not told apart); for on.event / daemons / "
@@ -118,8 +158,10 @@ ASSUMPTIONS = ["values are JSON (strings, integers, booleans, null, lists, objec
                "reads the parsed fields, the tie compares both with the real check(); 'name.version.group' notations and the "
                "ambiguity resolution of Selector.select are not generated"]
 
+# C15-F1, the RESIDUAL after /repo bd6cd41: only causes WITH an old state (`cause.old is not None`). A creation
+# (no old state) selected by "absent in the non-existent old state" is NOT covered: it is a plain VIOLATION again.
 FINDING_OLD = {"site": "registries._matches_field_values", "deviation": "old_counts",
-               "shape": "non-update changing handler: value= satisfied by the old state only (e.g. on.create value=ABSENT always holds)"}
+               "shape": "non-update changing handler (on.resume/on.delete/on.create) on a cause WITH an old state: value= satisfied by the old state only"}
 FINDING_CARRIED = {"site": "processing.process_resource_event", "shape": "carried patch re-sent",
                    "what": "a handler's transformation carried over from a rejected JSON-patch is sent to an object that matches nothing any more"}
 FINDING_TOUCH = {"site": "application.apply", "shape": "touch-dummy on an unmatched object",
@@ -252,6 +294,7 @@ CHG_VOCAB = _vocab({
     "cause.initial": "a.cInitial",
     "cause.deleted": "a.cDeleted",
     "handler.deleted": "a.hDeleted",
+    "handler.field_needs_change": "a.needsChange",       # /repo 17e5c42: only FIELD handlers are skipped on deletion
     "match(handler=handler, cause=cause)": "a.matched",
 })
 
@@ -322,19 +365,51 @@ def _resolve_assign(st: ast.stmt) -> tuple[str, str] | None:
     return None
 
 
-def _values_block(stmts: list[ast.stmt], fname: str) -> list[str]:
-    """`a = resolve(...)`* ; `values = [a, b]` → the list of sources in order"""
+CUR_VOCAB = _vocab({
+    "cause.old is None": "a.oldIsNone",
+    "getattr(handler, 'field_needs_change', False)": "a.needsChange",
+})
+
+
+def _values_block(stmts: list[ast.stmt], fname: str, cond_vocab: dict[str, str] | None = None) -> tuple[str | None, list[str], list[str] | None]:
+    """`a = resolve(...)`* ; [`flag = <bool over cond_vocab>`]* ; `values = [a, b]` or
+    `values = [a] if <flag | bool over cond_vocab> else [a, b]`
+    → (lean condition | None, sources when the condition holds (or the only list), sources otherwise | None).
+    Anything else raises (never a default)."""
     env: dict[str, str] = {}
+    flags: dict[str, ast.expr] = {}
+    if not stmts:
+        raise ExtractError(f"{fname}: empty branch where `values = [...]` was expected")
     for st in stmts[:-1]:
         r = _resolve_assign(st)
-        if r is None:
-            raise ExtractError(f"{fname}: unexpected statement `{pyextract.norm(st)[:100]}` before `values = [...]`")
-        env[r[0]] = r[1]
+        if r is not None:
+            if r[0] in env or r[0] in flags:
+                raise ExtractError(f"{fname}: `{r[0]}` is assigned twice before `values = [...]`")
+            env[r[0]] = r[1]
+            continue
+        if cond_vocab is not None and isinstance(st, ast.Assign) and len(st.targets) == 1 and isinstance(st.targets[0], ast.Name) \
+                and st.targets[0].id not in env and st.targets[0].id not in flags and st.targets[0].id != "values":
+            pyextract.BoolTranslator(cond_vocab, flags).tr(st.value)      # raises on atoms outside the vocabulary
+            flags[st.targets[0].id] = st.value
+            continue
+        raise ExtractError(f"{fname}: unexpected statement `{pyextract.norm(st)[:100]}` before `values = [...]`")
     last = stmts[-1]
-    if not (isinstance(last, ast.Assign) and pyextract.norm(last.targets[0]) == "values" and isinstance(last.value, ast.List)
-            and all(isinstance(e, ast.Name) and e.id in env for e in last.value.elts)):
-        raise ExtractError(f"{fname}: expected `values = [<resolved names>]`, got `{pyextract.norm(last)[:100]}`")
-    return [env[e.id] for e in last.value.elts]  # type: ignore[attr-defined]
+
+    def srcs(e: ast.expr) -> list[str]:
+        if not (isinstance(e, ast.List) and e.elts and all(isinstance(x, ast.Name) and x.id in env for x in e.elts)):
+            raise ExtractError(f"{fname}: expected a list of resolved names, got `{pyextract.norm(e)[:100]}`")
+        return [env[x.id] for x in e.elts]  # type: ignore[attr-defined]
+    if not (isinstance(last, ast.Assign) and len(last.targets) == 1 and pyextract.norm(last.targets[0]) == "values"):
+        raise ExtractError(f"{fname}: expected `values = ...` last, got `{pyextract.norm(last)[:100]}`")
+    if isinstance(last.value, ast.IfExp):
+        if cond_vocab is None:
+            raise ExtractError(f"{fname}: a conditional `values` where a plain list was expected: `{pyextract.norm(last)[:100]}`")
+        tr = pyextract.BoolTranslator(cond_vocab, flags)
+        cond = tr.tr(last.value.test)
+        return cond, srcs(last.value.body), srcs(last.value.orelse)
+    if flags:
+        raise ExtractError(f"{fname}: {sorted(flags)} computed but `values` does not depend on it: `{pyextract.norm(last)[:100]}`")
+    return None, srcs(last.value), None
 
 
 def _loop_any(fn: ast.FunctionDef, tr: pyextract.BoolTranslator) -> str:
@@ -438,16 +513,23 @@ def extract(ctx: Ctx) -> None:
         raise ExtractError("_matches_field_values: the `isinstance(cause, causes.ChangingCause)` split is gone")
     vif = body[split[0]]
     assert isinstance(vif, ast.If)
-    v_changing = _values_block(vif.body, "_matches_field_values")
-    v_other = _values_block(vif.orelse, "_matches_field_values") if vif.orelse else None
-    if v_other is None:
+    c_cond, c_then, c_else = _values_block(vif.body, "_matches_field_values", CUR_VOCAB)
+    if not vif.orelse:
         raise ExtractError("_matches_field_values: no else-branch for non-changing causes")
+    _, v_other, _ = _values_block(vif.orelse, "_matches_field_values")
     rest = body[:split[0]] + body[split[0] + 1:]
     chain = pyextract.if_chain(rest, tr, _ret(tr), {KWARGS_FILL})
     if tr.locals.keys() - {"absent"} or pyextract.norm(tr.locals.get("absent", ast.Constant(0))) != "_UNSET.token":
         raise ExtractError("_matches_field_values: unexpected local assignments")
     emit("fvCore", "FVAtoms", pyextract.chain_to_lean(chain))
-    out.append(f"def valuesChanging : List Src := [{', '.join(v_changing)}]\n")
+    if c_cond is not None:
+        # /repo bd6cd41: `current_only = cause.old is None and not getattr(handler, 'field_needs_change', False)`,
+        # `values = [new] if current_only else [new, old]`
+        emit("currentOnlyCore", "CurAtoms", c_cond)
+        out.append(f"def valuesChanging (currentOnly : Bool) : List Src :=\n  if currentOnly then [{', '.join(c_then)}] else [{', '.join(c_else or [])}]\n")
+    else:
+        # an unconditional list: emitted as it is (no `currentOnlyCore`: the tie theorems about it then fail)
+        out.append(f"def valuesChanging (_currentOnly : Bool) : List Src := [{', '.join(c_then)}]\n")
     out.append(f"def valuesOther : List Src := [{', '.join(v_other)}]\n")
 
     # _matches_field_changes
@@ -566,7 +648,7 @@ def extract(ctx: Ctx) -> None:
     if n_app != 3:
         raise ExtractError(f"process_resource_causes: {n_app} patch.fns.append sites (expected 3)")
 
-    # ChangingRegistry.iter_handlers: excluded → reason → skip chain → match (incl. /repo 345a874)
+    # ChangingRegistry.iter_handlers: excluded → reason → skip chain → match (incl. /repo 345a874, 17e5c42)
     it = pyextract.find_def(rtree, "ChangingRegistry.iter_handlers")
     ibody = pyextract.body_without_docstring(it)
     if len(ibody) != 1 or not isinstance(ibody[0], ast.For) or pyextract.norm(ibody[0].iter) != "self._handlers" \
@@ -943,8 +1025,11 @@ def doc_parts_eq(h: dict, st: dict, dev: frozenset, eq: Callable[[Any, Any], boo
                 affected = not ((old is MISSING and new is MISSING) or (old is not MISSING and new is not MISSING and eq(old, new)))
                 parts["change"] = (affected and (h["o"] is None or chk(h["o"], old)) and (h["n"] is None or chk(h["n"], new)))
             else:
-                # "check the resource in its current ---and only--- state"
-                parts["value"] = chk(vcrit, new) or ("old_counts" in dev and chk(vcrit, old))
+                # "check the resource in its current ---and only--- state": the criterion holds iff it
+                # holds on the current value. (The named deviation -- used ONLY to attribute an observed
+                # failure to the open finding C15-F1 -- is its residual: a REAL old state satisfies it;
+                # a creation, `old is None`, has no old state and no exemption since /repo bd6cd41.)
+                parts["value"] = chk(vcrit, new) or ("old_counts" in dev and st["o"] is not None and chk(vcrit, old))
         else:
             parts["value"] = chk(vcrit, doc_resolve(st["b"], h["f"]))
     return parts
@@ -976,8 +1061,15 @@ def classify(h: dict, st: dict, got: bool, fn: Callable[..., bool | None], site:
 def doc_gate(h: dict, st: dict) -> bool:
     """cause kind (C05's subject, restated from the handler kinds): a handler bound to a cause kind
     runs only for it; resume handlers only on first sight, on deleting objects only when opted in;
-    field handlers (no kind of their own, not resuming) are for updates: "the field handler is
-    effective only when the object is updated" -- never on an object marked for deletion."""
+    field handlers (`@kopf.on.field`: no kind of their own, not resuming) are for updates: "the field
+    handler is effective only when the object is updated" -- never on an object marked for deletion.
+    A SUB-HANDLER (`@kopf.subhandler`, `kopf.register`, `kopf.execute(fns=...)`) has no cause kind of its
+    own at all: it belongs to the run of its parent, whatever cause that is (docs/handlers.rst,
+    "sub-handlers"); only its filters decide. (Through kopf.on.* a reason-less non-resuming top-level
+    handler can only be an on.field handler; before the sub-registry cases existed this oracle did not
+    tell the two apart -- the hole through which C15-F8 went unnoticed.)"""
+    if h.get("_sub"):
+        return True
     if h["r"] is not None and h["r"] != st["r"]:
         return False
     if h["i"] and (not st["i"] or (st["m"] and not h["d"])):
@@ -995,10 +1087,10 @@ class Env:
         import kopf
         from kopf._cogs.configs import configuration
         from kopf._cogs.structs import bodies, diffs, ephemera, patches, references
-        from kopf._core.actions import application, lifecycles
+        from kopf._core.actions import application, execution, lifecycles, progression
         from kopf._core.engines import daemons, indexing
         from kopf._core.intents import causes, filters, handlers, registries
-        from kopf._core.reactor import inventory, processing
+        from kopf._core.reactor import inventory, processing, subhandling
         self.__dict__.update(locals())
         self.resource = references.Resource("kopf.dev", "v1", PLURAL, kind="KopfExample", singular="kopfexample",
                                             shortcuts=frozenset({"kex"}), categories=frozenset({"all"}),
@@ -1009,7 +1101,19 @@ class Env:
         logging.getLogger("kopf").setLevel(logging.CRITICAL + 1)
         self.fns = [self._mkfn(i) for i in range(6)]
         self.calls: list[Any] = []
+        # sub-handlers: what happens inside the handlers, in order -- ("P", n) a parent with sub-handlers runs,
+        # ("G", registry, selected) a get_handlers() of a (sub-)registry, ("S", i, param) sub-handler function i runs
+        self.subtrace: list[Any] = []
+        self.subfns = [self._mksub(i) for i in range(5)]
+        self.settings = configuration.OperatorSettings()
+        self.settings.posting.enabled = False
         env = self
+
+        async def sub_temp(**kw: Any) -> None:
+            env.subtrace.append(("S", "temp", kw.get("param")))
+            raise kopf.TemporaryError("the sub-handler comes back later", delay=0.001)
+        sub_temp.__name__ = sub_temp.__qualname__ = "sub_temp"
+        self.sub_temp = sub_temp
 
         class Ops:
             """an instance whose methods are registered as handlers: `ops.m0` is a NEW object per access"""
@@ -1028,6 +1132,12 @@ class Env:
 
     def fn_of(self, h: dict) -> Any:
         return getattr(self.ops, f"m{h['_bound']}") if h.get("_bound") is not None else self.fns[h["fn"] % len(self.fns)]
+
+    def _mksub(self, i: int) -> Callable[..., Any]:
+        async def fn(**kw: Any) -> None:
+            self.subtrace.append(("S", i, kw.get("param")))
+        fn.__name__ = fn.__qualname__ = f"sub{i}"
+        return fn
 
     def _mkfn(self, i: int) -> Callable[..., Any]:
         async def fn(**kw: Any) -> None:
@@ -1502,6 +1612,15 @@ def run_select_case(env: Env, rec: Rec, case: dict, driver_reqs: list, pending: 
     got_keys = [(hs[i]["func"], hs[i]["id"]) for i in got_idx]     # the FUNCTION and the id (the property's clause)
     rec.evaluations += 1
     rec.count("registry class", cls)
+    if cls == "changing":
+        rec.count("select: changing cause (reason / old state vs. new in the field)",
+                  f"{st['r']}{'+initial' if st['i'] else ''} / " + ("no old state" if st["o"] is None else
+                  "old == new" if doc_resolve(st["o"], FIELD) == doc_resolve(st["n"], FIELD) else "old != new"))
+        for h in hs:
+            if h["f"] is not None and h["v"] is not None and h["r"] in (None, st["r"]):
+                rec.count("select: value= criterion x handler kind x old state",
+                          f"{crit_kind(h['v'])} / {'update-like' if h['_fnc'] else 'resume' if h['_i'] else str(h['r'])} / "
+                          + ("no old state" if st["o"] is None else "old state"))
     rec.count("selected per get_handlers", len(got_idx))
     dup_regs = len(hs) - len({(h["func"], h["id"]) for h in hs})
     rec.count("duplicate (function,id) registrations", dup_regs)
@@ -1564,15 +1683,62 @@ def random_select_case(rng: random.Random) -> dict:
     ov, nv = rng.choice(VALS + [NOOLD] + FALSY[:3]), rng.choice(VALS + FALSY)
     if cls == "changing":
         reason = rng.choice(["create"] * 3 + ["update"] * 3 + ["delete"] * 2 + ["resume"] * 2 + ["noop", "free", "gone"])
+        initial = rng.random() < 0.5
+        if rng.random() < 0.75:
+            # as causes.detect_changing_cause builds them: a creation has no old state and is never initial; an
+            # update has an old state that differs; resume/no-op have an unchanged one; a deletion has any
+            # (never handled before: none; else the last-handled one, often differing from the current one)
+            if reason == "create":
+                ov, initial = NOOLD, False
+            elif reason in ("resume", "noop"):
+                ov = rng.choice([v for v in VALS + FALSY[:3]]) if ov == NOOLD else ov
+                nv = ov
+                initial = reason == "resume"
+            elif reason == "update":
+                ov = rng.choice([v for v in VALS + FALSY[:3] if v != nv]) if ov == NOOLD or ov == nv else ov
+            elif reason == "delete" and rng.random() < 0.7:
+                ov = rng.choice([v for v in VALS + FALSY[:3] if v != nv]) if ov == NOOLD or ov == nv else ov
         st = state(cls, labels={} if lv is None else {LK: lv}, annotations={} if av is None else {AK: av},
                    body_extra={"spec": spec_of(nv)}, old=None if ov == NOOLD else {"spec": spec_of(ov)}, new={"spec": spec_of(nv)},
-                   reason=reason, initial=rng.random() < 0.5, marked=reason == "delete" or rng.random() < 0.15)
+                   reason=reason, initial=initial, marked=reason == "delete" or rng.random() < 0.15)
     else:
         st = state(cls, labels={} if lv is None else {LK: lv}, annotations={} if av is None else {AK: av},
                    body_extra={"spec": spec_of(nv)})
     ids_ = sorted({(h["id"] if e else (f"Env.__init__.<locals>.Ops.m{h['_bound']}" if h.get("_bound") is not None else f"fn{h['fn']}")) + ("/" + ".".join(h["f"]) if h["f"] else "") for h, _, e in handlers})
     excluded = [i for i in ids_ if rng.random() < 0.25] if cls != "changing" or rng.random() < 0.3 else []
     return {"cls": cls, "handlers": handlers, "state": st, "excluded": excluded}
+
+
+KIND_SWEEP_VCRITS: list = [None, "A", "P", {"v": "x"}, {"cb": "is_x"}, {"cb": "is_none"}]
+
+
+def kind_value_sweep() -> list[dict]:
+    """every handler kind (on.create/update/delete/resume/field) x value= criterion (none, ABSENT, PRESENT,
+    literal, callbacks) registered through kopf.on.* alone in a registry, against every cause shape
+    causes.detect_changing_cause can build over the field alphabet: creations (no old state), updates
+    (old != new, also first-seen = initial), deletions (never handled: no old state; else any old state,
+    equal or not), resuming (old == new). Both tiers, complete."""
+    vals: list = [None, "x", "y"]
+    sts: list[dict] = []
+
+    def st(ov: Any, nv: Any, reason: str, initial: bool = False, marked: bool = False) -> dict:
+        return state("changing", body_extra={"spec": spec_of(nv)}, old=None if ov == NOOLD else {"spec": spec_of(ov)},
+                     new={"spec": spec_of(nv)}, reason=reason, initial=initial, marked=marked)
+    for nv in vals:
+        sts.append(st(NOOLD, nv, "create"))
+        sts.append(st(nv, nv, "resume", initial=True))
+        for ov in vals:
+            if ov != nv:
+                sts += [st(ov, nv, "update"), st(ov, nv, "update", initial=True)]
+        for ov in vals + [NOOLD]:
+            sts.append(st(ov, nv, "delete", marked=True))
+    cases = []
+    for kind, k in DECL_KIND.items():
+        for v in KIND_SWEEP_VCRITS:
+            h = hspec("changing", id="h", f=FIELD, v=v, fnc=k["fnc"], r=k["r"], i=k["i"] or None,
+                      rf=True if kind == "delete" else None, d=True if kind == "resume" else None)
+            cases += [{"cls": "changing", "handlers": [(h, kind, True)], "state": x, "excluded": []} for x in sts]
+    return cases
 
 
 def run_dedup_case(env: Env, rec: Rec, keys: list[list], driver_reqs: list, pending: list) -> None:
@@ -1591,6 +1757,324 @@ def run_dedup_case(env: Env, rec: Rec, keys: list[list], driver_reqs: list, pend
     rec.count("dedup removed", len(keys) - len(idx))
     driver_reqs.append(["C15.dedup", keys])
     pending.append(("_deduplicated positions", idx, replay))
+
+
+# =============================================================================================
+# (D) sub-registries: the handlers `@kopf.subhandler` / `kopf.register` / `kopf.execute(fns=...)` make
+# inside a running parent handler, selected by the same ChangingRegistry.get_handlers (finding C15-F8)
+# =============================================================================================
+SUB_VIAS = ("subhandler", "register", "execute-list", "execute-dict")
+FINDING_SUB_SITE = "changing sub-registry get_handlers (subhandling.execute)"
+SIG_SUB_MISSING = {"site": FINDING_SUB_SITE, "shape": "sub-handlers whose declared criteria hold are not selected"}
+SIG_SUB_EXTRA = {"site": FINDING_SUB_SITE, "shape": "sub-handler selected although a declared criterion fails"}
+SIG_SUB_INVOKED = {"site": "subhandling.execute", "shape": "the sub-handlers invoked are not the selected ones"}
+PARENT_KINDS = ("create", "update", "delete", "resume", "field")
+
+
+def sub_spec(parent_kind: str, via: str, *, fn: int = 0, id: str | None = None, l: Any = None, a: Any = None, w: Any = None,
+             f: Any = None, v: Any = None, o: Any = None, n: Any = None, behave: str | None = None) -> dict:
+    """a sub-handler declaration: what kopf is expected to build from it -- no selector, no reason, not
+    resuming, no finalizer; `field_needs_change` inherited from the parent by @kopf.subhandler /
+    kopf.register ("inherit dynamically"), none for kopf.execute(fns=...). Filters: all of them through
+    @kopf.subhandler, labels/annotations/when through kopf.register, none through kopf.execute(fns=...)."""
+    if via == "register":
+        f = v = o = n = None
+    if via.startswith("execute"):
+        l = a = w = f = v = o = n = None
+    fnc = DECL_KIND[parent_kind]["fnc"] if via in ("subhandler", "register") else False
+    if behave == "temp":
+        fn = 9                     # the one sub-handler function that asks to be retried
+    h = hspec("changing", fn=fn, id=id or "", sel=None, l=l, a=a, w=w, f=f, v=v, o=o, n=n, fnc=fnc or None)
+    h["_sub"] = {"parent": parent_kind, "via": via}
+    h["_id"] = id                  # None: kopf generates it from the function's name
+    if behave:
+        h["_behave"] = behave
+    return h
+
+
+def make_parent_fn(env: Env, n_: Any, fn_index: int, subs: list[dict], via: str, explicit: bool) -> Callable[..., Any]:
+    """a handler function that declares its sub-handlers the way the docs show, inside its own run"""
+    kopf = env.kopf
+
+    def sub_fn(sp: dict) -> Any:
+        return env.sub_temp if sp.get("_behave") == "temp" else env.subfns[sp["fn"] % len(env.subfns)]
+
+    async def parent(**kw: Any) -> None:
+        env.calls.append((fn_index, kw.get("param")))
+        env.subtrace.append(("P", n_))
+        if via in ("subhandler", "register"):
+            for k, sp in enumerate(subs):
+                common = dict(id=sp["_id"], param=("sub", n_, k), labels=env.pattern(sp["l"]), annotations=env.pattern(sp["a"]),
+                              when=env.when(sp["w"]))
+                if via == "subhandler":
+                    kopf.subhandler(**common, field=None if sp["f"] is None else ".".join(sp["f"]), value=env.vcrit(sp["v"]),
+                                    old=env.vcrit(sp["o"]), new=env.vcrit(sp["n"]))(sub_fn(sp))
+                else:
+                    kopf.register(sub_fn(sp), **common)
+            if explicit:
+                await kopf.execute()
+        elif via == "execute-list":
+            await kopf.execute(fns=[sub_fn(sp) for sp in subs])
+        elif via == "execute-dict":
+            await kopf.execute(fns={sp["_id"]: sub_fn(sp) for sp in subs})
+        else:
+            raise ValueError(via)
+    parent.__name__ = parent.__qualname__ = f"fn{fn_index}"
+    return parent
+
+
+class SubSpy:
+    """records every get_handlers() of a ChangingRegistry other than the operator's own (= a sub-registry)"""
+    def __init__(self, env: Env, top: Any) -> None:
+        self.env, self.top = env, top
+        self.cls = env.registries.ChangingRegistry
+
+    def __enter__(self) -> "SubSpy":
+        base = self.env.registries.ResourceRegistry.get_handlers
+        env, top = self.env, self.top
+
+        def get_handlers(self_: Any, cause: Any, excluded: Any = frozenset()) -> Any:
+            r = base(self_, cause=cause, excluded=excluded)
+            if self_ is not top:
+                env.subtrace.append(("G", self_, list(r), cause))
+            return r
+        self.cls.get_handlers = get_handlers
+        return self
+
+    def __exit__(self, *_: Any) -> None:
+        del self.cls.get_handlers          # back to the inherited ResourceRegistry.get_handlers
+
+
+def split_subtrace(trace: list) -> dict:
+    """("P", n) … until the next ("P", ·): the sub-registry consulted and the sub-handler functions run"""
+    out: dict[Any, dict] = {}
+    cur: Any = None
+    for e in trace:
+        if e[0] == "P":
+            cur = e[1]
+            out[cur] = {"registries": [], "ran": []}
+        elif cur is not None and e[0] == "G":
+            out[cur]["registries"].append((e[1], e[2], e[3]))
+        elif cur is not None and e[0] == "S":
+            out[cur]["ran"].append((e[1], e[2]))
+    return out
+
+
+def judge_subs(env: Env, rec: Rec, *, parent_kind: str, via: str, subs: list[dict], seen: dict | None, st: dict, judged: bool,
+               replay: dict, reqs: list, pending: list, n_: Any, released: bool | None = None, parent_field: bool = False) -> None:
+    """one run of a parent with sub-handlers: the real sub-registry against the declarations (decorator tie),
+    the selected sub-handlers against the oracle (both directions) and the model, the invoked against the
+    selected."""
+    # the first get_handlers() after the parent started is on its own sub-registry (execute() selects before it
+    # invokes); later ones are the (empty) sub-sub-registries of the sub-handlers, each run in its own
+    # subhandling_context, and the implicit execute() after an explicit kopf.execute(fns=...)
+    if seen is None or not seen["registries"] or any(len(x[0]._handlers) for x in seen["registries"][1:]):
+        rec.oracle_fail(f"the parent ran but its sub-registry was consulted {0 if seen is None else len(seen['registries'])} times "
+                        f"(kopf.execute / the implicit execution after the handler)", replay,
+                        {"site": "subhandling.execute", "shape": "sub-registry not consulted exactly once per run of the parent"})
+        return
+    subreg, selected, seen_cause = seen["registries"][0]
+    # the cause the sub-handlers are selected for is the parent's ADJUSTED one (handlers.adjust_cause): for a
+    # parent with field=, old/new are narrowed to that field's values (scalars, or None when absent)
+    jj = lambda x: None if x is None else json.loads(json.dumps(x if not hasattr(x, "keys") else dict(x)))
+    if parent_field:
+        st = dict(st, o=jj(seen_cause.old), n=jj(seen_cause.new))
+    reals = list(subreg._handlers)
+    if len(reals) != len(subs):
+        rec.oracle_fail(f"{len(subs)} sub-handlers declared, {len(reals)} registered", replay,
+                        {"site": "subhandling", "shape": "sub-registry size differs from the declarations"})
+        return
+    hs = []
+    for k, (sp, real) in enumerate(zip(subs, reals)):
+        h = dict(sp, id=str(real.id))
+        check_decorated(env, rec, real, h, f"sub-handler via {via} in on.{parent_kind}")
+        if real.selector is not None:
+            rec.tie_fail("a sub-handler has a selector", {"input": replay})
+        hs.append(h)
+    pos = {id(x): i for i, x in enumerate(reals)}
+    got_idx = [pos[id(x)] for x in selected]
+    got_keys = [(hs[i]["func"], hs[i]["id"]) for i in got_idx]
+    rec.count("sub-registry: parent kind x made by", f"on.{parent_kind} x {via}")
+    rec.count("sub-registry: cause", f"{st['r']}{'+initial' if st['i'] else ''}{' marked' if st['m'] else ''}")
+    rec.count("sub-registry: declared / selected", f"{len(subs)} / {len(got_idx)}")
+    for h in hs:
+        rec.count("sub-handler filters", "none" if is_catchall(h) else "+".join(
+            x for x, on in (("labels", h["l"]), ("annotations", h["a"]), ("when", h["w"] is not None), ("field", h["f"])) if on))
+    if len(set(got_keys)) != len(got_keys):
+        rec.oracle_fail(f"one function registered under one id was selected twice in a sub-registry: {got_keys}", replay,
+                        {"site": "registries._deduplicated", "shape": "duplicate (function, id) in get_handlers"})
+    # invoked = selected (all-at-once, nothing recorded on the object yet): by (function, param)
+    want_ran = sorted(((("temp" if hs[i].get("_behave") == "temp" else hs[i]["fn"] % len(env.subfns)),
+                        ("sub", n_, i) if via in ("subhandler", "register") else None) for i in got_idx), key=repr)
+    ran = sorted(seen["ran"], key=repr)
+    if ran != want_ran:
+        rec.oracle_fail(f"sub-handlers selected: {want_ran}, invoked: {ran}", replay, SIG_SUB_INVOKED)
+    # field filters of a sub-handler under a parent that has a field itself are read against the narrowed
+    # old/new: the docs say nothing about that combination -- those sub-handlers are tied, not judged
+    jhs = [h for h in hs if not (parent_field and h["f"])]
+    if len(jhs) != len(hs):
+        rec.count("oracle", "not judged (field filter of a sub-handler under a parent with field=)", len(hs) - len(jhs))
+    jkeys = {(h["func"], h["id"]) for h in jhs}
+    verdicts = [doc_match(h, st) for h in jhs]
+    if not judged:
+        rec.count("oracle", "undefined (sub-registry of a parent that does not run for this cause)")
+    elif any(v is None for v in verdicts):
+        rec.count("oracle", "undefined (sub-select)")
+    else:
+        def want(dev: frozenset) -> set:
+            return {(h["func"], h["id"]) for h in jhs if doc_gate(h, st) and doc_match(h, st, dev)}
+        got, exp = set(got_keys) & jkeys, want(frozenset())
+        rec.count("oracle", "agrees (sub-select)" if got == exp else "DIFFERS (sub-select)")
+        if got != exp:
+            sig = next((sg for dev, sg in DEVIATIONS if got == want(dev)), None) or \
+                (SIG_SUB_MISSING if got < exp else SIG_SUB_EXTRA)
+            tail = "" if not released else "; the finalizer was released in the same cycle, without their work"
+            rec.oracle_fail(f"sub-handlers of an on.{parent_kind} handler on a {st['r']}{' (marked)' if st['m'] else ''} cause: selected "
+                            f"{sorted(got)}, the declared criteria select {sorted(exp)}{tail}", replay, sig)
+    rec.nontrivial.add(f"subselect|{parent_kind}|{via}|{len(hs)}|{st['r']}{int(st['i'])}{int(st['m'])}|{len(got_idx)}|"
+                       + ",".join(sorted({h_kinds(h) for h in hs})))
+    reqs.append(["C15.select", "changing", [lean_h(h) for h in hs], lean_c(st), []])
+    pending.append(("sub-registry get_handlers positions", got_idx, replay))
+
+
+def cause_constructible(st: dict) -> bool:
+    """causes.detect_changing_cause never pairs a deletion mark with a non-deletion reason"""
+    return (not st["m"]) or st["r"] in ("delete", "free", "gone")
+
+
+async def run_subselect_case(env: Env, rec: Rec, case: dict, reqs: list, pending: list) -> None:
+    """the parent handler is RUN by kopf (execution.execute_handlers_once in subhandling_context, as
+    process_changing_cause does) for the given cause, whether it would be selected for it or not; it
+    declares its sub-handlers through the public API; kopf selects and invokes them. Judged by the oracle
+    iff the parent itself runs for this cause by the documented reading (cause kind + its own filters)."""
+    import warnings
+    ph, pkind = case["parent"]
+    ph = dict(ph)
+    ph.setdefault("func", ph["fn"])
+    ph.setdefault("_bound", None)
+    subs, via, st = case["subs"], case["via"], case["state"]
+    registry = env.registries.OperatorRegistry()
+    fn = make_parent_fn(env, "p", ph["fn"], subs, via, bool(case.get("explicit")))
+    env.calls.clear()
+    env.subtrace.clear()
+    with warnings.catch_warnings():
+        warnings.simplefilter("ignore")
+        parent = env.decorate(registry, ph, pkind, explicit_id=True, fn_override=fn)
+        cause = env.cause(st)
+        state = env.progression.State.from_scratch().with_purpose(cause.reason).with_handlers([parent])
+        with SubSpy(env, registry._changing):
+            outcomes = await env.execution.execute_handlers_once(
+                lifecycle=env.lifecycles.all_at_once, settings=env.settings, handlers=[parent], cause=cause, state=state,
+                extra_context=env.subhandling.subhandling_context)
+    rec.evaluations += 1
+    replay = {"kind": "subselect", "case": case}
+    out = outcomes.get(parent.id)
+    temp = any(sp.get("_behave") == "temp" for sp in subs)
+    if out is None or (out.exception is not None and not temp):
+        raise RuntimeError(f"harness: the parent handler did not run cleanly: {out!r}")
+    pv = doc_match(ph, st)
+    judged = bool(pv) and doc_gate(ph, st) and cause_constructible(st)
+    seen = split_subtrace(env.subtrace).get("p")
+    judge_subs(env, rec, parent_kind=pkind, via=via, subs=subs, seen=seen, st=st, judged=judged, replay=replay,
+               reqs=reqs, pending=pending, n_="p", parent_field=bool(ph["f"]))
+
+
+def sub_states() -> list[dict]:
+    """every cause reason (as detect_changing_cause builds them: deletion reasons on marked bodies) x label"""
+    out = []
+    for lv in (None, "x"):
+        def st(reason: str, initial: bool = False, marked: bool = False, ov: Any = "x", nv: Any = "x") -> dict:
+            return state("changing", labels={} if lv is None else {LK: lv}, body_extra={"spec": spec_of(nv)},
+                         old=None if ov == NOOLD else {"spec": spec_of(ov)}, new={"spec": spec_of(nv)}, reason=reason,
+                         initial=initial, marked=marked)
+        out += [st("create", ov=NOOLD), st("update", ov="y"), st("update", initial=True, ov="y"), st("resume", initial=True),
+                st("noop"), st("delete", marked=True), st("delete", marked=True, ov=NOOLD), st("delete", initial=True, marked=True),
+                st("free", marked=True), st("gone", marked=True),
+                st("update", marked=True, ov="y")]        # (not constructible: tie only)
+    return out
+
+
+def sub_sweep() -> list[dict]:
+    """parents of every kind (on.resume with and without deleted=True) x every way of making sub-handlers
+    x every cause reason incl. DELETE on a marked body x {no filter, labels=, when=false, field/value}.
+    Complete, both tiers."""
+    cases = []
+    for pkind in PARENT_KINDS:
+        k = DECL_KIND[pkind]
+        for d in ([None, True] if pkind == "resume" else [None]):
+            ph = hspec("changing", id="par", f=FIELD if pkind == "field" else None, fnc=k["fnc"], r=k["r"], i=k["i"] or None,
+                       rf=True if pkind == "delete" else None, d=d)
+            for via in SUB_VIAS:
+                subs = [sub_spec(pkind, via, fn=0, id="a"), sub_spec(pkind, via, fn=1, id="b", l=pat(LK, "P")),
+                        sub_spec(pkind, via, fn=2, id="c", w=False), sub_spec(pkind, via, fn=3, id="d", f=FIELD, v={"v": "x"})]
+                for st in sub_states():
+                    cases.append({"parent": [ph, pkind], "via": via, "explicit": False, "subs": subs, "state": st})
+    return cases
+
+
+def random_subselect_case(rng: random.Random) -> dict:
+    pkind = rng.choice(PARENT_KINDS + ("delete", "delete", "create"))
+    k = DECL_KIND[pkind]
+    small = [None, None, None, {"v": "x"}, "P", "A", {"cb": "is_x"}]
+    ph = hspec("changing", fn=rng.randrange(3), id="par", sel=rng.choice([PLURAL] * 6 + ["others"]),
+               l=pat(LK, rng.choice(small)) if rng.random() < 0.3 else None, w=rng.choice([None, None, None, True, False]),
+               f=FIELD if pkind == "field" else None, fnc=k["fnc"], r=k["r"], i=k["i"] or None,
+               rf=(rng.random() < 0.7) if pkind == "delete" else None, d=rng.choice([None, True, True]) if pkind == "resume" else None)
+    via = rng.choice(SUB_VIAS + ("subhandler", "subhandler"))
+    subs: list[dict] = []
+    for j in range(rng.choice([0, 1, 2, 2, 2, 3, 4])):
+        if subs and rng.random() < 0.25:      # the same function again: under the same id (dedup) or another one
+            s0 = rng.choice(subs)
+            fn, sid = s0["fn"], (s0["_id"] if rng.random() < 0.6 else f"s{j}")
+        else:
+            fn, sid = rng.randrange(5), rng.choice([f"s{j}", f"s{j}", None])
+        if via == "execute-dict":
+            sid = f"s{j}"                     # a mapping: one entry per id
+        f = FIELD if rng.random() < 0.3 else None
+        v = o = n = None
+        if f and k["fnc"] and rng.random() < 0.4:
+            o, n = rng.choice(CRITS), rng.choice(CRITS)
+        elif f:
+            v = rng.choice(CRITS + FCRITS[6:8])
+        subs.append(sub_spec(pkind, via, fn=fn, id=sid, l=pat(LK, rng.choice(small)), a=pat(AK, rng.choice(small)),
+                             w=rng.choice([None, None, None, True, True, False]), f=f, v=v, o=o, n=n))
+    lv, av = rng.choice(VALS + ["x"]), rng.choice(VALS + ["x"])
+    ov, nv = rng.choice(VALS + [NOOLD]), rng.choice(VALS)
+    reason = rng.choice(["create"] * 2 + ["update"] * 3 + ["delete"] * 5 + ["resume"] * 2 + ["noop", "free", "gone"])
+    if rng.random() < 0.5:
+        reason = k["r"] or reason             # the parent's own cause kind
+    initial = rng.random() < 0.5
+    if reason == "create":
+        ov, initial = NOOLD, False
+    elif reason in ("resume", "noop"):
+        ov = nv if ov == NOOLD or rng.random() < 0.9 else ov
+        initial = reason == "resume"
+    elif reason == "update" and (ov == NOOLD or ov == nv):
+        ov = rng.choice([x for x in VALS if x != nv])
+    marked = reason in ("delete", "free", "gone") if rng.random() < 0.93 else rng.random() < 0.5
+    if rng.random() < 0.65:
+        # a cause the parent itself runs for (else the sub-registry is only tied, not judged)
+        ph.update(_sel=PLURAL, sel=True, l=None, w=None)
+        reason = k["r"] or rng.choice(["update", "update", "create", "delete", "resume"] if pkind == "field" else
+                                      ["resume", "resume", "update", "delete", "delete"])
+        initial = pkind == "resume" or (reason != "create" and rng.random() < 0.3)
+        marked = reason == "delete"
+        if pkind == "resume" and marked:
+            ph.update(_d=True, d=True)
+        if pkind == "field" and marked:
+            reason, marked = "update", False
+        if reason == "create":
+            ov, initial = NOOLD, False
+            nv = nv if pkind != "field" or nv is not None else "x"
+        elif reason == "resume":
+            ov = nv
+        elif reason == "update" or pkind == "field":
+            ov = rng.choice([x for x in VALS if x != nv])
+    st = state("changing", labels={} if lv is None else {LK: lv}, annotations={} if av is None else {AK: av},
+               body_extra={"spec": spec_of(nv)}, old=None if ov == NOOLD else {"spec": spec_of(ov)}, new={"spec": spec_of(nv)},
+               reason=reason, initial=initial, marked=marked)
+    return {"parent": [ph, pkind], "via": via, "explicit": via in ("subhandler", "register") and rng.random() < 0.3,
+            "subs": subs, "state": st}
 
 
 # =============================================================================================
@@ -1775,11 +2259,89 @@ def _cycle_handlers(rng: random.Random, *, daemons_real: bool) -> list:
                       i=k["i"] or None, d=rng.choice([None, True]) if kind == "resume" else None)
             if cls == "changing" and rng.random() < 0.15:
                 h["_behave"] = "temp"            # raises TemporaryError(delay): the handling returns delays
+            elif cls == "changing" and rng.random() < 0.3:
+                h["_subs"] = random_subs(rng, kind)   # the handler declares sub-handlers while it runs
             if cls == "spawning" and daemons_real:
                 h["_behave"] = rng.choice(["ignores", "ignores", "obeys"])
                 h["_sel"], h["sel"], h["w"] = PLURAL, True, None
             hs.append((h, kind))
     return hs
+
+
+def random_subs(rng: random.Random, parent_kind: str, temp: float = 0.08) -> dict:
+    small = [None, None, {"v": "x"}, "P", "A", {"cb": "is_x"}]
+    via = rng.choice(SUB_VIAS + ("subhandler",))
+    subs = []
+    for j in range(rng.choice([1, 2, 2, 3])):
+        f = FIELD if rng.random() < 0.25 else None
+        subs.append(sub_spec(parent_kind, via, fn=j, id=f"s{j}", l=pat(LK, rng.choice(small)), a=pat(AK, rng.choice(small)),
+                             w=rng.choice([None, None, None, True, False]), f=f, v=rng.choice(CRITS) if f else None,
+                             behave="temp" if j == 0 and rng.random() < temp else None))
+    return {"via": via, "explicit": via in ("subhandler", "register") and rng.random() < 0.3, "subs": subs}
+
+
+def subcycle_scenarios() -> list[dict]:
+    """closed-loop scenarios of finding C15-F8 and its neighbours, both tiers, complete:
+      * an `@kopf.on.delete` handler declaring two sub-handlers (each way of declaring them) on an object
+        marked for deletion that carries the finalizer: both must be invoked, and only then is the finalizer
+        released (same cycle); with a labels= filter on the second one and an unlabelled object: only the first;
+      * the same with a sub-handler that asks to be retried: invoked, and the finalizer is NOT released yet;
+      * an `@kopf.on.resume(deleted=True)` handler with sub-handlers on a marked object seen by listing;
+      * an `@kopf.on.create` handler whose sub-handlers have labels= / when= filters, labelled or not;
+      * `@kopf.on.update` / `@kopf.on.field` handlers with sub-handlers on an update."""
+    out = []
+
+    def case(kind: str, subs: dict, *, label: Any, event: Any, stored: Any, marked: bool, fin: bool, field: Any = "x",
+             d: Any = None, f: Any = None) -> dict:
+        k = DECL_KIND[kind]
+        h = hspec("changing", fn=0, id="h0", l=None, f=f, fnc=k["fnc"], r=k["r"], i=k["i"] or None,
+                  rf=True if kind == "delete" else None, d=d)
+        h["_subs"] = subs
+        return {"handlers": [(h, kind)], "label": label, "annotation": None, "field": field, "stored": stored, "event": event,
+                "own_finalizer": fin, "foreign_finalizer": False, "marked": marked, "stopped": [], "carried": False, "resumed": []}
+    for via in SUB_VIAS:
+        two = lambda pk, **kw: {"via": via, "explicit": False, "subs": [sub_spec(pk, via, fn=0, id="a"), sub_spec(pk, via, fn=1, id="b", **kw)]}
+        for label in ("x", None):
+            out.append(case("delete", two("delete"), label=label, event="MODIFIED", stored="x", marked=True, fin=True))
+            out.append(case("delete", two("delete", l=pat(LK, "P")), label=label, event="MODIFIED", stored=NOOLD, marked=True, fin=True))
+            out.append(case("resume", two("resume", l=pat(LK, "P")), label=label, event=None, stored="x", marked=True, fin=True, d=True))
+            out.append(case("create", two("create", l=pat(LK, {"v": "x"}), w=True), label=label, event="ADDED", stored=NOOLD, marked=False, fin=False))
+            out.append(case("create", two("create", w=False), label=label, event="ADDED", stored=NOOLD, marked=False, fin=False))
+            out.append(case("update", two("update", l=pat(LK, "P")), label=label, event="MODIFIED", stored="y", marked=False, fin=False))
+            out.append(case("field", two("field", w=True), label=label, event="MODIFIED", stored="y", marked=False, fin=False, f=FIELD))
+        retry = {"via": via, "explicit": False, "subs": [sub_spec("delete", via, id="a", behave="temp"), sub_spec("delete", via, fn=1, id="b")]}
+        out.append(case("delete", retry, label="x", event="MODIFIED", stored="x", marked=True, fin=True))
+    return out
+
+
+def random_subcycle_case(rng: random.Random) -> dict:
+    """one whole cycle built so that a parent of a random kind runs and declares random sub-handlers
+    (random filters, any way of declaring them, sometimes one that asks to be retried)"""
+    kind = rng.choice(PARENT_KINDS + ("delete", "delete"))
+    k = DECL_KIND[kind]
+    h = hspec("changing", fn=0, id="h0", f=FIELD if kind == "field" or rng.random() < 0.15 else None, fnc=k["fnc"], r=k["r"],
+              i=k["i"] or None, rf=True if kind == "delete" else None, d=True if kind == "resume" and rng.random() < 0.7 else None)
+    h["_subs"] = random_subs(rng, kind, temp=0.15)
+    field = rng.choice(["x", "x", "y"])
+    other = "y" if field == "x" else "x"
+    marked = fin = False
+    if kind == "create":
+        event, stored = "ADDED", NOOLD
+    elif kind in ("update", "field"):
+        event, stored = "MODIFIED", rng.choice([other, other, None])
+    elif kind == "delete":
+        event, stored, marked, fin = "MODIFIED", rng.choice(["SAME", other, NOOLD, field]), True, True
+    else:
+        event, stored = None, rng.choice(["SAME", "SAME", other])
+        marked = fin = rng.random() < 0.5
+    hs = [(h, kind)]
+    if rng.random() < 0.3:       # a second, plain handler of a random kind beside it
+        k2 = rng.choice(PARENT_KINDS)
+        hs.append((hspec("changing", fn=1, id="h1", f=FIELD if k2 == "field" else None, fnc=DECL_KIND[k2]["fnc"], r=DECL_KIND[k2]["r"],
+                         i=DECL_KIND[k2]["i"] or None, rf=True if k2 == "delete" else None), k2))
+    return {"handlers": hs, "label": rng.choice(VALS), "annotation": rng.choice(VALS), "field": field, "stored": stored, "event": event,
+            "own_finalizer": fin, "foreign_finalizer": rng.random() < 0.15, "marked": marked, "stopped": [], "carried": False,
+            "resumed": []}
 
 
 def random_cycle_case(rng: random.Random) -> dict:
@@ -1835,6 +2397,9 @@ async def run_cycle_case(env: Env, rec: Rec, case: dict, driver_reqs: list, pend
     hs = []
     for n_, (h, kind) in enumerate(case["handlers"]):
         override = {"temp": env.temp_fn, "ignores": _dmn_ignores, "obeys": _dmn_obeys}.get(h.get("_behave"))
+        if h.get("_subs"):
+            sb = h["_subs"]
+            override = make_parent_fn(env, n_, h["fn"], sb["subs"], sb["via"], bool(sb.get("explicit")))
         real = env.decorate(registry, h, kind, explicit_id=True, param=n_, fn_override=override)
         hs.append(dict(h, id=str(real.id)))
     by_param = {n_: h for n_, h in enumerate(hs)}
@@ -1930,6 +2495,7 @@ async def _one_cycle(env: Env, rec: Rec, case: dict, k: int, step: dict, own_fin
             obs["daemon_delays"] += r
         return r
     env.calls.clear()
+    env.subtrace.clear()
     P._detect_causes, P.process_resource_causes, P.process_changing_cause = detect, prc, pcc
     A.patch_and_check = pac
     D.spawn_daemons, D.match_daemons, D.pause_daemons, D.stop_daemons = spawn, matchd, pause, stopd
@@ -1945,10 +2511,13 @@ async def _one_cycle(env: Env, rec: Rec, case: dict, k: int, step: dict, own_fin
     known = list(memories.iter_all_memories())
     pre_resumed = sorted(known[0].resumed_handlers) if known else []
     pre_stopped = sorted(str(x) for x in known[0].daemons_memory.forever_stopped) if known else []
-    await P.process_resource_event(
-        lifecycle=env.lifecycles.all_at_once, indexers=env.indexing.OperatorIndexers(), registry=registry, settings=settings,
-        memories=memories, memobase=memobase, resource=env.resource,
-        raw_event={"type": step["event"], "object": body}, event_queue=asyncio.Queue(), no_throttling=True)
+    import warnings
+    with SubSpy(env, registry._changing), warnings.catch_warnings():
+        warnings.simplefilter("ignore")
+        await P.process_resource_event(
+            lifecycle=env.lifecycles.all_at_once, indexers=env.indexing.OperatorIndexers(), registry=registry, settings=settings,
+            memories=memories, memobase=memobase, resource=env.resource,
+            raw_event={"type": step["event"], "object": body}, event_queue=asyncio.Queue(), no_throttling=True)
     patch = obs["patch"]
     fns = [getattr(f, "func", f).__name__ for f in patch.fns]
     patch_dict = json.loads(json.dumps(dict(patch), default=repr))
@@ -2015,6 +2584,25 @@ async def _one_cycle(env: Env, rec: Rec, case: dict, k: int, step: dict, own_fin
     driver_reqs.append(["C15.cycle", side("watching"), side("spawning"), side("changing"),
                         lean_c(sts["watching"]), lean_c(sts["spawning"]), lean_c(sts["changing"]), o, pre_stopped])
     pending.append(("cycle effects", impl, replay))
+    # ---- sub-handlers: every parent that ran declared them while running; kopf selected and invoked them
+    sub_runs = split_subtrace(env.subtrace)
+    released = bool(step["marked"]) and "fin-" in impl["fins"]
+    for n_, h in by_param.items():
+        if not h.get("_subs"):
+            continue
+        if n_ not in sub_runs:
+            if any(p == n_ for _, p in called):
+                raise RuntimeError("harness: a parent was invoked but left no trace")
+            continue
+        sb = h["_subs"]
+        kind_ = case["handlers"][n_][1]
+        judge_subs(env, rec, parent_kind=kind_, via=sb["via"], subs=sb["subs"], seen=sub_runs[n_], st=sts["changing"], judged=True,
+                   replay=replay, reqs=driver_reqs, pending=pending, n_=n_, released=released, parent_field=bool(h["f"]))
+        if released and any(x[0] == "temp" for x in sub_runs[n_]["ran"]):
+            rec.oracle_fail("the finalizer was released in the cycle in which a sub-handler of the deletion handler asked to be retried",
+                            replay, {"site": "processing.process_resource_causes",
+                                     "shape": "finalizer released while a sub-handler of the deletion handler is not finished"})
+    rec.count("cycle: parents with sub-handlers that ran", len(sub_runs))
     # the own finalizer of the next event: what kopf itself queued now
     for f in impl["fins"]:
         own_fin = f == "fin+"
@@ -2158,6 +2746,8 @@ def run_case(env: Env, rec: Rec, data: dict, reqs: list, pending: list, drv: lea
         run_select_case(env, rec, c, reqs, pending)
     elif kind == "dedup":
         run_dedup_case(env, rec, data["keys"], reqs, pending)
+    elif kind == "subselect":
+        asyncio.run(run_subselect_case(env, rec, data["case"], reqs, pending))
     elif kind == "selector":
         run_selectors(env, rec, reqs, pending)
     elif kind == "cycle":
@@ -2209,7 +2799,9 @@ def run(ctx: Ctx) -> None:
         eval_grid(env, rec, hs_, sts_, "random larger maps", queue=q)
 
     # ---- registries, dedup, cycles ---------------------------------------------------------------
-    for _ in range(ctx.budget(3000, 30000)):
+    for case in kind_value_sweep():
+        run_select_case(env, rec, case, reqs, pending)
+    for _ in range(ctx.budget(2600, 30000)):
         run_select_case(env, rec, random_select_case(rng), reqs, pending)
     for _ in range(ctx.budget(300, 3000)):
         keys = [[rng.randrange(3), rng.choice(["a", "b", "c"])] for _ in range(rng.randint(0, 8))]
@@ -2217,7 +2809,19 @@ def run(ctx: Ctx) -> None:
     run_selectors(env, rec, reqs, pending)
     flush(rec, drv, reqs, pending)
 
+    async def subregistries() -> None:
+        for case in sub_sweep():
+            await run_subselect_case(env, rec, case, reqs, pending)
+        for _ in range(ctx.budget(1200, 15000)):
+            await run_subselect_case(env, rec, random_subselect_case(rng), reqs, pending)
+    asyncio.run(subregistries())
+    flush(rec, drv, reqs, pending)
+
     async def cycles() -> None:
+        for case in subcycle_scenarios():
+            await run_cycle_case(env, rec, case, reqs, pending)
+        for _ in range(ctx.budget(300, 4000)):
+            await run_cycle_case(env, rec, random_subcycle_case(rng), reqs, pending)
         for _ in range(ctx.budget(2000, 20000)):
             await run_cycle_case(env, rec, random_cycle_case(rng), reqs, pending)
         # consecutive events on the same in-memory records with kopf's REAL daemon spawning/stopping
@@ -2240,7 +2844,7 @@ def search(ctx: Ctx, broken: list) -> None:
     rec = Rec()
     for b in broken:
         inp = (b.replay or {}).get("input") if isinstance(b.replay, dict) else None
-        if isinstance(inp, dict) and inp.get("kind") in ("pair", "select", "dedup", "cycle"):
+        if isinstance(inp, dict) and inp.get("kind") in ("pair", "select", "dedup", "cycle", "subselect"):
             try:
                 run_case(env, rec, inp, [], [], None, use_model=False)
             except Exception:
@@ -2259,12 +2863,22 @@ def search(ctx: Ctx, broken: list) -> None:
         rng = random.Random(f"C15-search-{ctx.seed}")
         reqs: list = []
         pending: list = []
+        for case in kind_value_sweep():
+            run_select_case(env, rec, case, reqs, pending)
         for _ in range(15000):
             run_select_case(env, rec, random_select_case(rng), reqs, pending)
         for _ in range(3000):
             run_dedup_case(env, rec, [[rng.randrange(3), rng.choice("abc")] for _ in range(rng.randint(0, 8))], reqs, pending)
 
         async def cycles() -> None:
+            for case in sub_sweep():
+                await run_subselect_case(env, rec, case, reqs, pending)
+            for _ in range(8000):
+                await run_subselect_case(env, rec, random_subselect_case(rng), reqs, pending)
+            for case in subcycle_scenarios():
+                await run_cycle_case(env, rec, case, reqs, pending)
+            for _ in range(3000):
+                await run_cycle_case(env, rec, random_subcycle_case(rng), reqs, pending)
             for _ in range(12000):
                 await run_cycle_case(env, rec, random_cycle_case(rng), reqs, pending)
             for _ in range(300):
